@@ -30,6 +30,7 @@ def _register(R):
             ("external-buffer-belongs-to-a-registered-waiter", "implies(not isnone(self.__external_buffer_view), not isnone(self.__read_waiter))"),
             ("water-marks-ordered", "0 <= self.__read_low_water and self.__read_low_water < self.__read_high_water"),
             ("reading-is-paused-only-above-the-low-water-mark", "implies(self.__read_paused, self.__buffer_nbytes_written > self.__read_low_water)"),
+            ("reading-is-paused-only-on-a-transport-that-can-be-resumed", "implies(self.__read_paused, not isnone(self.__transport))"),
         ],
     )
     ext0 = "not isnone(old(self.__external_buffer_view))"
@@ -74,6 +75,7 @@ def _register(R):
             ("a-returned-byte-count-is-exactly-the-one-buffer_updated()-stored-for-this-waiter",
              "implies(not isnone(result), bound('FUT') and val(result) == val(FUT.value))", "C03 C10"),
             ("written-count-in-range", "0 <= self.__buffer_nbytes_written and implies(not isnone(self.__buffer), self.__buffer_nbytes_written <= len(self.__buffer))", "C10"),
+            ("pause-state-consistent", "implies(self.__read_paused, self.__buffer_nbytes_written > self.__read_low_water and not isnone(self.__transport))", "C10 C03"),
         ],
         raises={"BaseException": taken_back + [("written-count-in-range", "0 <= self.__buffer_nbytes_written and implies(not isnone(self.__buffer), self.__buffer_nbytes_written <= len(self.__buffer))", "C10")]},
         modifies=[W, "self.__external_buffer_view", "self.__buffer_nbytes_written", "self.__eof_reached", "self.__connection_lost", "self.__read_paused",
@@ -92,6 +94,7 @@ def _register(R):
                          "self.__buffer_nbytes_written >= 0",
                          "implies(not isnone(self.__buffer), self.__buffer_nbytes_written <= len(self.__buffer))",  # get_buffer() hands out the free region only
                          "implies(self.__read_paused, self.__buffer_nbytes_written > self.__read_low_water)",
+                         "implies(self.__read_paused, not isnone(self.__transport))",
                          # buffer_updated() hands the caller's buffer back before it stores the byte count (its own contract)
                          f"implies(not isnone({W}.value) and isnone(pre({W}.value)), isnone(self.__external_buffer_view))",
                          # a byte count is stored in the waiter only by buffer_updated(), and only for a registered caller buffer
@@ -117,6 +120,8 @@ def register_receive(R):
             ("pending-bytes-are-split-between-the-caller-and-the-internal-buffer-without-loss-or-reordering",
              f"implies(bound('P1'), ((buffer[:val(result)] + {PEND} == P1 and (val(result) == len(P1) or val(result) == len(buffer))) or ({PEND} == P1 and not isnone(WAITED))))", "C03 C10"),
             ("count-in-range", "implies(bound('WAITED') and isnone(WAITED), 0 <= val(result) and val(result) <= len(buffer))", "C03"),
+            ("reading-is-resumed-once-the-backlog-is-below-the-low-water-mark (the flag and the transport agree: a receive that has to wait never finds reading paused)",
+             "implies(self.__read_paused, self.__buffer_nbytes_written > self.__read_low_water)", "C03 C10"),
         ],
         raises={"BaseException": [("a-failed-or-cancelled-receive-leaves-the-pending-bytes-where-they-are", f"implies(bound('P1'), {PEND} == P1)", "C10")]},
         modifies=["buffer", "self.__buffer.data", n, "self.__read_waiter", "self.__external_buffer_view", "self.__eof_reached", "self.__connection_lost", "self.__read_paused",
@@ -133,6 +138,8 @@ def register_receive(R):
             ("pending-bytes-are-split-between-the-caller-and-the-internal-buffer-without-loss-or-reordering",
              f"implies(bound('P1'), result + {PEND} == P1 and (len(result) == len(P1) or len(result) == bufsize))", "C03 C10"),
             ("at-most-bufsize", "len(result) <= bufsize or bufsize < 0", "C03"),
+            ("reading-is-resumed-once-the-backlog-is-below-the-low-water-mark (the flag and the transport agree: a receive that has to wait never finds reading paused)",
+             "implies(self.__read_paused, self.__buffer_nbytes_written > self.__read_low_water)", "C03 C10"),
         ],
         raises={"ValueError": [("negative-size-rejected-before-anything-happens", "bufsize < 0")],
                 "BaseException": [("a-failed-or-cancelled-receive-leaves-the-pending-bytes-where-they-are", f"implies(bound('P1'), {PEND} == P1)", "C10")]},
